@@ -92,8 +92,26 @@ def menu(tier):
          ['( not ( and a ( => a b ) ) )', '( or ( not a ) ( not ( => a b ) ) )',
           '( not ( and a ( or ( not a ) b ) ) )']),
     ]
+    shapes.append(
+        ('dtconst', '(declare-datatype Col ((red) (green) (blue)))\n'
+         '(declare-const c Col)\n(declare-const d Col)\n'
+         '(assert (distinct c d))\n',
+         ['( distinct c d )', '( distinct red d )', '( distinct green d )',
+          '( distinct blue d )', '( distinct c red )', '( distinct c green )',
+          '( distinct c blue )']))
+    shapes.append(
+        ('reducebw', '(declare-const p (_ BitVec 8))\n'
+         '(declare-const q (_ BitVec 8))\n(declare-const r (_ BitVec 8))\n'
+         '(declare-const s (_ BitVec 8))\n'
+         '(assert (= (bvadd p q) (bvadd r s)))\n',
+         ['( bvadd p q ) ( bvadd r s )']))
     for name, inp, alts in shapes:
-        fam.append((f'shape-{name}', inp, ('anyof', alts), 'default'))
+        model = ('anyof', alts)
+        if name == 'dtconst':
+            # the declarations have to stay, or nothing has a sort any more
+            model = ('and', model, ('count', 'declare-const', 2),
+                     ('has', ['declare-datatype', 'red', 'green', 'blue']))
+        fam.append((f'shape-{name}', inp, model, 'default'))
     for name, inp, model, ms in fam:
         for strat in S.STRATEGIES:
             scn.append(S.mk(f'c18/{name}/{strat}', inp, model, strat, 1,
